@@ -575,6 +575,28 @@ def run_l2(ctx, case, exprs, checks):
                               f'{key}: field(s) {[NAMES[n] for n in extra]} neither required nor requested', case=cs, impl=r)
         if r[3] is None:
             ctx.violation('Dataset.load_and_prepare_data', 'no-livetime-accepted', 'no livetime, no error', case=cs, impl=r)
+    plain = (not case['exp_ren'] and not case['mc_ren'] and not case['prep'] and case['livetime'] is not None
+             and all(f is not None for f in case['exp'] + case['mc'])
+             and all(same_schema(part) for part in (case['exp'], case['mc']) if part))
+    if plain:
+        miss = []
+        if case['exp']:
+            have = [n for n, d in case['exp'][0]['sch']]
+            miss += [n for n in req_exp if n not in have]
+        if case['mc']:
+            have = [n for n, d in case['mc'][0]['sch']]
+            miss += [n for n in req_mc if n not in have]
+        r = res['npy.time']
+        if not miss and r == ['Err', 'KeyError']:
+            ctx.violation('Dataset.load_and_prepare_data', 'spurious-KeyError',
+                          'every analysis-stage field of the merged stage table (dataset overrides configuration) is in the files, '
+                          'yet a KeyError is raised', case=cs, impl=r,
+                          predicate='no error when all required fields are present')
+        if miss and r[0] == 'Ok':
+            ctx.violation('Dataset.load_and_prepare_data', 'required-field-missing-without-error',
+                          f'analysis-stage field(s) {[NAMES[n] for n in miss]} are not in the files, no error raised',
+                          case=cs, impl=r, predicate='missing required field -> error')
+        ctx.count('plain-stage-oracle:' + ('missing' if miss else 'complete'))
     if any(f is None for f in case['exp'] + case['mc']):
         for key, r in list(res.items()) + [('load_data', ld)]:
             if r[0] != 'Err':
@@ -1099,9 +1121,16 @@ def gen_l2(rng, ctx, big=None):
         for n in rng.sample(cand, rng.randint(0, min(2, len(cand)))):
             dsf.append([n, (rng.choice([4, 4, 1, 5]) if n in en else rng.choice([8, 2]))])
         ctx.count('stage:dataset-level' if dsf else 'stage:cfg-only')
-    elif r < 0.6 and cfg:
+    elif r < 0.7 and cfg:
         c = rng.choice(cfg)
-        dsf.append([c[0], rng.choice([0, 1, 4, 8, 12])])      # same name at both levels: the dataset wins
+        # same name at both levels, the dataset wins; the analysis bits differ in one or the other direction
+        if c[1] & 12:
+            c2 = rng.choice([0, 1, 2, 3])
+            ctx.count('stage:both-levels:cfg-analysis-ds-not')
+        else:
+            c2 = rng.choice([4, 8, 12, 5])
+            ctx.count('stage:both-levels:ds-analysis-cfg-not')
+        dsf.append([c[0], c2])
         ctx.count('stage:both-levels-same-name')
     else:
         ctx.count('stage:cfg-only')
@@ -1139,7 +1168,19 @@ def corpus_cases():
     one = {'sch': [[0, 3], [1, 3]], 'rows': [[5, 6]]}
     base = {'level': 2, 'mc': [], 'exp_ren': [], 'mc_ren': [], 'livetime': 1, 'keep': [], 'conv': [], 'exc': None,
             'prep': [], 'try_pkl': True}
-    return [
+    both = []
+    fe = {'sch': [[0, 3], [2, 1]], 'rows': [[1, 10], [2, 20], [3, 30]]}
+    fm = {'sch': [[0, 3], [2, 1], [6, 3]], 'rows': [[4, 40, 7], [5, 50, 8]]}
+    # (configuration bits, dataset bits) of ONE name listed at both levels: analysis vs preparation-only / none,
+    # in each direction; name 2 = present in the files, name 9 = missing; exp bits and mc bits
+    for (cb, db) in ((4, 1), (1, 4), (4, 0), (0, 4), (5, 1), (1, 5)):
+        for nm in (2, 9):
+            for keep in ([], [nm]):
+                both.append(dict(base, cfg=[[0, 4], [nm, cb]], dsf=[[nm, db]], exp=[fe], mc=[], keep=keep, try_pkl=False))
+    for (cb, db) in ((8, 2), (2, 8), (8, 0), (0, 8)):
+        for nm in (6, 9):
+            both.append(dict(base, cfg=[[0, 4], [nm, cb]], dsf=[[nm, db]], exp=[fe], mc=[fm], try_pkl=False))
+    return both + [
         # dataset-level analysis field must survive tidy_up (fix 5fbad79)
         dict(base, cfg=[[0, 4]], dsf=[[8, 4]], exp=[f]),
         # dataset-level required field missing from the file must be reported (fix 5fbad79)
@@ -1207,7 +1248,7 @@ def run(ctx):
         cases.append(gen_l1(rng, ctx))
     for _ in range(n2):
         cases.append(gen_l2(rng, ctx))
-    ctx.sample({'level-1 example': cases[4 + len(bigs)]})
+    ctx.sample({'level-1 example': [c for c in cases if c['level'] == 1 and not is_big(c)][2]})
     ctx.sample({'level-2 example': cases[-1]})
     run_cases(ctx, cases, 'c17')
     run_history(ctx, cases, random_for_history(ctx))
